@@ -18,7 +18,7 @@ from stone.backends.python_rsrc import stone_validators as bv
 
 from vlib.hx import Skip
 
-BYTES_CHOICES = (b'', b'\x00\xff', b'abc')
+BYTES_CHOICES = (b'', b'\x00\xff', b'abc', b'\x01' * 60)       # the last one is longer than a base64 line
 TS_CHOICES = (datetime.datetime(2015, 5, 12, 15, 50, 38), datetime.datetime(1999, 12, 31, 23, 59, 59))
 MAP_KEYS = ('k', 'kk')
 
